@@ -347,6 +347,9 @@ func judgeFinal(defs []classDef, o obsMap) []finding {
 		if k := checkPrec(defs, i, pobs); k != "" {
 			add(pk, i, "precedence", k, "", fmt.Sprintf("class-precedence of %s (direct superclasses %s) = %s; canonical reading %s",
 				cname(i), supNames(defs[i].supers), pobs, precText(canonPrec(defs, i))))
+			if k == "not-ready" {
+				continue // the class cannot be instantiated; reported once (S3)
+			}
 		}
 		order := orderFor(defs, i, pobs)
 		listed := map[string]bool{}
